@@ -2,9 +2,9 @@
 //! Built twice: `release`, and `dbg` (overflow checks + debug assertions on),
 //! where a panic on an in-range input is a violation too.
 
-use checks::domain::{int_source_domain, Domain};
-use checks::fmts::IntS;
-use checks::{for_int_fmts, for_int_pairs};
+use scalar::domain::{int_source_domain, Domain};
+use scalar::fmts::IntS;
+use scalar::{for_int_fmts, for_int_pairs};
 use common::refmodel::{conv_int, Fmt, INT_FMTS};
 use common::{catch, guard, json, Ctx, Value};
 use dasp_sample::{Sample, ToSample, I24, I48, U24, U48};
